@@ -10,6 +10,7 @@ import (
 	"github.com/crewjam/saml"
 
 	"verifharness/internal/emit"
+	"verifharness/internal/mdcases"
 )
 
 func init() { props["C15"] = runC15 }
@@ -17,6 +18,7 @@ func init() { props["C15"] = runC15 }
 func runC15(c *Ctx) {
 	c15Durations(c)
 	c15Instants(c)
+	mdcases.C15Metadata(c)
 }
 
 func durMarshal(d int64) (res *string, panicked bool) {
